@@ -93,8 +93,10 @@ func toYAMLNode(v any) (*yaml.Node, error) {
 	case string:
 		// A string of multiple lines is written as a literal block, which
 		// lacks the indentation indicator it needs to be read back when
-		// the string starts with a tab, so quote such a string.
-		if strings.HasPrefix(v, "\t") && strings.Contains(v, "\n") {
+		// the string starts with a tab, and has a wrong one in a sequence
+		// (unless the indent is 2) when it starts with a space or a line
+		// break, so quote such a string.
+		if strings.Contains(v, "\n") && strings.ContainsRune(" \t\n", rune(v[0])) {
 			n.SetString(v)
 			n.Style = yaml.DoubleQuotedStyle
 			return n, nil
